@@ -1,6 +1,7 @@
 (* C02 - a small reference table (an excerpt of the real per-class tables: BinaryExpression,
-   ColumnClause, BindParameter, Table, Select, Alias) with witnesses: hypotheses are satisfiable, and the two
-   places where the unchanged code violates the property *)
+   ColumnClause, BindParameter, Table, Select, Alias, Label) with witnesses: hypotheses are satisfiable, and the
+   two places where the code still violates the property (Label.type, the callable of a cached bind).
+   bindparam.expanding was a third one until f7c5c02 put it into BindParameter._gen_cache_key. *)
 From Coq Require Import List NArith ZArith Bool.
 Import ListNotations.
 From SAV.sql Require Import CacheKey CacheExec CacheKeyMain.
@@ -13,25 +14,28 @@ Definition a_expanding := 18. Definition a_columns := 20. Definition a_where := 
 (* classes *)
 Definition c_binary := 1. Definition c_column := 2. Definition c_bind := 3. Definition c_table := 4.
 Definition c_select := 5. Definition c_alias := 6. Definition c_values := 7. Definition c_ddl := 8.
+Definition c_label := 9.
 Definition a_data := 23.
 
 Definition T_ref : ttab := [
   (c_binary, mkC KNormal false [(a_left, HKids); (a_right, HKids); (a_operator, HTruthy); (a_type, HNotNone)]);
   (c_column, mkC KNormal false [(a_name, HNotNone); (a_type, HNotNone); (a_table, HKids)]);
-  (c_bind,   mkC KNormal true  [(a_type, HNotNone); (a_key, HNotNone); (a_litexec, HNotNone)]);
+  (c_bind,   mkC KNormal true  [(a_type, HNotNone); (a_key, HNotNone); (a_litexec, HNotNone); (a_expanding, HNotNone)]);
+  (c_label,  mkC KNormal false [(a_name, HNotNone); (a_element, HKids)]);            (* Label._cache_key_traversal: no type *)
   (c_table,  mkC KIdentity false []);
   (c_select, mkC KNormal false [(a_columns, HKids); (a_where, HKids)]);
   (c_alias,  mkC KNormal false [(a_element, HKids); (a_name, HNotNone)]);
   (c_values, mkC KNormal false [(a_columns, HKids); (a_data, HNoCache); (a_name, HTruthy)]);   (* Values: not cacheable once it has data *)
   (c_ddl,    mkC KNoCache false []) ].                                                          (* a class without a cache key *)
-(* what the compiler reads: visit_bindparam reads bindparam.expanding, which is not in the key *)
+(* what the compiler reads: visit_label reads label.type (result processors), which is not in the key *)
 Definition V_ref : vtab := [
   (c_binary, [a_left; a_right; a_operator]);
   (c_column, [a_name; a_table; a_type]);
   (c_bind,   [a_type; a_key; a_litexec; a_expanding]);
+  (c_label,  [a_name; a_element; a_type]);
   (c_select, [a_columns; a_where]);
   (c_alias,  [a_element; a_name]) ].
-Definition G_ref : list (N * N) := [(c_bind, a_expanding)].
+Definition G_ref : list (N * N) := [(c_label, a_type)].
 
 Definition A (z : Z) : atom := mkA z true.
 Definition AFalse : atom := mkA 7 false.
@@ -49,6 +53,11 @@ Definition sel (b : node) : node :=
 Definition s_3 : node := sel (bp 4 (A 3) ANone (A 3) AFalse).
 Definition s_9 : node := sel (bp 4 (A 9) ANone (A 9) AFalse).
 Definition s_expanding : node := sel (bp 4 (A 9) ANone (A 9) (A 1)).
+(* select(label("lx", t.c.x, type_=...)): the type atom is present only when it differs from the element's *)
+Definition sel_label (ty : atom) : node :=
+  Node 0 c_select [] [(a_columns, [Node 5 c_label [(a_name, A 500); (a_type, ty)] [(a_element, [colx])]])].
+Definition s_label_default : node := sel_label ANone.
+Definition s_label_boolean : node := sel_label (A 201).
 Definition s_callable : node := sel (bp 4 ANone (A 77) (A 4) AFalse).      (* callable_=lambda: 4 *)
 (* not cacheable: a VALUES construct with data; a statement containing an element without a cache key *)
 Definition s_values : node :=
